@@ -3,6 +3,7 @@ package main
 import (
 	"encoding/json"
 	"fmt"
+	"go/token"
 	"io"
 	"math"
 	"math/big"
@@ -204,6 +205,10 @@ func runDirect(dec *json.Decoder, enc *json.Encoder) {
 
 			case "identifierize":
 				res["out"] = generator.VerifIdentifierize(c.Caps, c.Exts, c.S)
+
+			case "isident":
+				res["ident"] = token.IsIdentifier(c.S)
+				res["exported"] = token.IsExported(c.S)
 
 			case "identfile":
 				res["out"] = generator.VerifIdentifierFromFileName(c.Caps, c.Exts, c.S)
